@@ -97,6 +97,10 @@ def gen_sender(rng, tier, force_w=None, rep=None):
         evs += rng.choice([["T"] * 7, ["E@0"], ["T", "T", "G@0", "T", "O@0", "T", "T"], ["T"] * 3 + base[cut:cut + 1] + ["T"] * 7,
                            ["T"] * k + [dup] + ["T"] * 8, [dup] * 6 + ["T"] * 8, ["T"] * k + [stale] * (6 - k) + ["T"] * 8,
                            [rng.choice(["T", dup, stale, "G@0", "O@0"]) for _ in range(8)] + ["T"] * 8])
+    if rng.random() < 0.2:
+        # sending takes time on the simulated clock (in duplicate mode 1 ms per copy for real): the retransmission timer counts from the
+        # END of a transmission, so this must change nothing
+        evs = ["S%d" % rng.choice([1, 50, tmo // 4, tmo // 2, tmo])] + evs
     return "snd %d %d %d %d %d %s %s" % (b, w, tmo, rp, chk, f, " ".join(evs))
 
 
@@ -122,6 +126,10 @@ def directed_sender():
     L.append("snd 8 2 5000 1 0 - A1@0")
     L.append("snd 8 2 5000 1 0 gen:16:1 A2@0 A3@0")
     L.append("snd 8 1 5000 3 0 gen:8:1 A1@0 A2@0")
+    # a burst that takes longer than the retransmission interval to send, then duplicate/stale ACKs: nothing may be retransmitted
+    L.append("snd 8 8 1000 4 1 gen:60:1 S100 A0@0 A0@0 A0@5 A8@0")
+    L.append("snd 8 4 1000 1 0 gen:30:3 S300 A0@0 A0@0 A2@5 A2@0 A4@0")
+    L.append("snd 8 2 5000 2 0 gen:40:9 S2500 A1@0 A1@0 A0@10 A3@0 A5@0 A6@0")
     # windows wider than one vectored read/write takes (IOV_MAX = 1024): refills and bursts of more than 1024 blocks
     L.append("snd 8 1500 5000 1 0 gen:20003:5 A1500@0 A2501@0")
     L.append("snd 8 1025 5000 1 0 gen:16400:6 A1025@0 A2050@0 A2051@0")
@@ -558,11 +566,41 @@ class C02(WorkerProp):
     module = "Tftp.Props.C02"
     receiver_clauses = ("fidelity",)
     rule = ("receiver scripts through the real Worker::receive on a real file, file snapshot read from disk at every ACK: in-order blocks with duplicates, blocks from the future, "
-            "stray ACK/OACK, failures, oversize payloads; non-trivial = distinct case with at least one receive attempt consumed")
+            "stray ACK/OACK, failures, oversize payloads; through the in-process server: overlapping uploads with different block sizes in both port modes; "
+            "non-trivial = distinct case with at least one receive attempt consumed")
 
     def generate(self, tier, rng):
         n = self.n_quick if tier == "quick" else self.n_thorough
-        return directed_receiver() + [gen_receiver(rng, tier) for _ in range(n)]
+        L = directed_receiver() + [gen_receiver(rng, tier) for _ in range(n)]
+        # through the server: what an upload stores must not depend on other transfers the server is handling at the same time (the single-port
+        # listener receives the DATA of every running upload): uploads with different block sizes, overlapping, in both port modes
+        root = (self.sandbox + "/k0").encode().hex()
+        for flags in ["s", "-"]:
+            for (b1, b2) in [(1024, 512), (2048, 8), (1428, 16), (512, 1024), (4096, 1024)]:
+                for sched in ["0101010101", "0011001100", "0100000000", "0010000000"] if tier == "thorough" else [rng.choice(["0101010101", "0010000000"]), "0100000000"]:
+                    second = rng.choice(["u:up2:%d:1:gen:%d:3" % (b2, 3 * b2 + 5), "d:c:%d:1" % b2])
+                    L.append("multi %s %s srv/c=gen:16:3 %s u:up1:%d:1:gen:%d:7 %s" % (root, flags, sched, b1, 2 * b1 + 100, second))
+        return L
+
+    retry_env = {"HARNESS_SLOW": "1"}
+
+    def oracle(self, line, impl):
+        if line.startswith("multi "):
+            from .p_server import C12
+            return C12.oracle(self, line, impl)
+        return WorkerProp.oracle(self, line, impl)
+
+    def nontrivial(self, line, impl):
+        return impl.startswith("c0=") if line.startswith("multi ") else WorkerProp.nontrivial(self, line, impl)
+
+    def classify(self, line, impl, res):
+        if line.startswith("multi "):
+            res.count("server-level:overlapping-uploads:flags=" + line.split(" ")[2])
+        else:
+            WorkerProp.classify(self, line, impl, res)
+
+    def shrink(self, line):
+        return [] if line.startswith("multi ") else WorkerProp.shrink(self, line)
 
 
 class C16(WorkerProp):
@@ -693,19 +731,38 @@ class C15(WorkerProp):
     sender_clauses = ("slice", "reassembly", "window", "termination")
     receiver_clauses = ("termination",)
     rule = ("worker-level transfers of 65534..65538 (thorough: up to 131073) blocks at blksize 1, windows ending before/at/after the wrap, "
-            "dup/partial/stale ACK and time-out faults in the windows around block 65535/0; receiver across the wrap with duplicates; "
+            "dup/partial/stale ACK and time-out faults in the windows around block 65535/0; receiver across the wrap with duplicates and with block 0 overtaken; "
+            "the real closed loop of two workers over > 65536 blocks with one lost DATA or ACK on the datagrams numbered 65535/0/1; "
             "non-trivial = distinct case with at least one receive attempt consumed")
 
     def generate(self, tier, rng):
-        return wrap_cases(tier, rng)
+        from .p_loop import wrap_loop_lines
+        return wrap_cases(tier, rng) + wrap_loop_lines(tier, rng)
 
     def compare(self, line, model, impl):
         return model == impl
 
     def oracle(self, line, impl):
+        if line.startswith("loop "):
+            from .p_loop import LoopProp
+            return LoopProp.oracle(self, line, impl)
         if line.startswith("rcv ") and line.split(" ")[5] == "len":
             return receiver_len_oracle(line, impl)
         return WorkerProp.oracle(self, line, impl)
+
+    budget = 5
+
+    def nontrivial(self, line, impl):
+        return impl.startswith("s=") if line.startswith("loop ") else WorkerProp.nontrivial(self, line, impl)
+
+    def classify(self, line, impl, res):
+        if line.startswith("loop "):
+            res.count("closed-loop-at-the-wrap")
+        else:
+            WorkerProp.classify(self, line, impl, res)
+
+    def shrink(self, line):
+        return [] if line.startswith("loop ") else WorkerProp.shrink(self, line)
 
 
 def receiver_len_oracle(line, impl):
@@ -966,6 +1023,13 @@ class C13(WorkerProp):
                     if "o" in flags:
                         # --overwrite: the aborted upload replaces a file that existed before (it is truncated at once)
                         L.append("abort %s %s %s %s %d" % (root, flags, fs, rq("wrq", b"old", opts).hex(), nb))
+        # the text of the aborting ERROR packet must not matter: long messages, multi-byte characters around plausible length limits
+        for flags in ["-", "s"]:
+            for lim in [16, 32, 64, 80, 100, 128, 200, 255, 256] if tier == "thorough" else [32, 64, 128, 255]:
+                for ch in ["\u00e4", "\u20ac"]:
+                    off = lim - rng.choice([0, 1])
+                    msg = ("a" * off + ch * 2 + "z").encode().hex()
+                    L.append("abort %s %s srv/old=0102 %s %d %s" % (root, flags, rq("wrq", b"up", (("blksize", 512),)).hex(), rng.choice([1, 2]), msg))
         return list(dict.fromkeys(L))
 
     retry_env = {"HARNESS_SLOW": "1"}
